@@ -8,6 +8,9 @@
          | (pct TGT D (NAME ((n d c lot)...) ((n d c lot)...))...)   --percent: held, parent's held
          | (reg TGT (day n d c lot)...)
          | (prices D c...)
+         | (via TGT D (NAME (n d c lot)...)...)        -X over a graph with several price paths:
+                                                       NAME=balance~tie (tie = 1 when some holding's
+                                                       conversion has two least-weight paths)
    commodities are hex strings, lot = hex or -                                         *)
 let c_of x = str_of_hex (atom x)
 let q_of n d = h_qmake (zatom n) (zatom d)
@@ -61,6 +64,13 @@ let handle line =
           String.concat " / " (List.map (function
               | L (A name :: hs) ->
                 name ^ "=" ^ show_bal (bal_row_memo js (List.map holding_of hs) (c_of t) (zatom d))
+              | _ -> failwith "acct") accts)
+        | L (A "via" :: t :: d :: accts) ->
+          String.concat " / " (List.map (function
+              | L (A name :: hs) ->
+                let hs = List.map holding_of hs in
+                name ^ "=" ^ show_bal (bal_row_via (plain js) hs (c_of t) (zatom d))
+                ^ "~" ^ (if bal_row_via_tie (plain js) hs (c_of t) (zatom d) then "1" else "0")
               | _ -> failwith "acct") accts)
         | L (A "reg" :: t :: posts) ->
           let ps = List.map (function
